@@ -515,6 +515,13 @@ fn extra(def: &PropDef, _args: &WorkerArgs, report: &mut WorkerReport) {
     }
     cases.push(C17Case::Reentrant { signo: libc::SIGUSR1, code: libc::SI_QUEUE, pid: 4242, uid: 77, iters: 250_000 });
     cases.push(C17Case::Reentrant { signo: libc::SIGCHLD, code: 1, pid: 31337, uid: 1000, iters: 250_000 });
+    {
+        let rep = null_info_probe();
+        if let Some(v) = report.absorb(def, &rep, &known) {
+            report.violation = Some((v.key, v.msg, json!({"null_info_probe": true})));
+            return;
+        }
+    }
     for case in cases {
         let rep = run_case(&case);
         if let Some(v) = report.absorb(def, &rep, &known) {
@@ -525,6 +532,9 @@ fn extra(def: &PropDef, _args: &WorkerArgs, report: &mut WorkerReport) {
 }
 
 fn replay(v: &Value) -> CaseReport {
+    if v.get("null_info_probe").is_some() {
+        return null_info_probe();
+    }
     let case: C17Case = serde_json::from_value(v.clone()).expect("case");
     run_case(&case)
 }
@@ -540,3 +550,62 @@ pub static C17: PropDef = PropDef {
     replay,
     extra: Some(extra),
 };
+
+// ---- a delivery that reaches the library without any record from the kernel: a third-party
+// handler installed over the library's chains to it the lazy way, `old(sig, NULL, NULL)`. The
+// library may refuse to go on (it aborts today) or report nothing - it must not invent an origin.
+static NULL_CHAIN_OLD: AtomicUsize = AtomicUsize::new(0);
+extern "C" fn chain_with_null(sig: c_int) {
+    let f: extern "C" fn(c_int, *mut siginfo_t, *mut libc::c_void) = unsafe { std::mem::transmute(NULL_CHAIN_OLD.load(Ordering::SeqCst)) };
+    f(sig, std::ptr::null_mut(), std::ptr::null_mut());
+}
+
+fn null_info_probe() -> CaseReport {
+    let (recs, end) = fork_stream(10_000, |fd| {
+        crate::vsched::install();
+        let sig = libc::SIGUSR1;
+        let mut sigs = match SignalsInfo::<WithOrigin>::new(&[sig]) {
+            Ok(s) => s,
+            Err(_) => {
+                emit(fd, &json!({"k": "infra"}));
+                return;
+            }
+        };
+        unsafe {
+            let mut old: libc::sigaction = std::mem::zeroed();
+            libc::sigaction(sig, std::ptr::null(), &mut old);
+            NULL_CHAIN_OLD.store(old.sa_sigaction, Ordering::SeqCst);
+            let mut sa: libc::sigaction = std::mem::zeroed();
+            sa.sa_sigaction = chain_with_null as usize;
+            libc::sigaction(sig, &sa, std::ptr::null_mut());
+        }
+        emit(fd, &json!({"k": "raising"}));
+        unsafe {
+            // the library announces its refusal on stderr before it aborts: keep the check's output clean
+            let null = libc::open(b"/dev/null\0".as_ptr() as *const libc::c_char, libc::O_WRONLY);
+            if null >= 0 {
+                libc::dup2(null, 2);
+            }
+            libc::raise(sig)
+        };
+        for o in sigs.pending() {
+            emit(fd, &json!({"k": "origin", "signal": o.signal, "cause": cause_label(&o.cause), "process": o.process.as_ref().map(|p| json!([p.pid, p.uid]))}));
+        }
+        emit(fd, &json!({"k": "done"}));
+    });
+    let mut rep = CaseReport::default();
+    rep.hash = hash_of(&"null-info");
+    rep.class("delivery-without-kernel-record");
+    rep.nontrivial = true;
+    rep.sample = Some(json!({"null_info_probe": true, "records": recs, "end": format!("{:?}", end)}));
+    if !recs.iter().any(|r| r["k"] == "raising") {
+        rep.inconclusive = Some(format!("null-info probe ended {:?}", end));
+        return rep;
+    }
+    for r in recs.iter().filter(|r| r["k"] == "origin") {
+        if !r["process"].is_null() || r["cause"] != "Unknown" {
+            rep.viol("C17/process", format!("a delivery that reached the library without any kernel record (info pointer NULL) was reported with an invented origin: cause {}, process {}", r["cause"], r["process"]));
+        }
+    }
+    rep
+}
